@@ -10,6 +10,10 @@
 //   random blocks: kRandBlock seeded draws (mixture of uniform / log-uniform / boundary / related values)
 // The inner loops call reference and implementation back to back; the breadcrumb is set once per
 // block and refined (subject/op/situation/arguments) only when a mismatch is reported.
+//
+// To keep the translation units small the loops are written once over type-erased arguments
+// (every argument/result of a <= 64-bit integer type is carried in an __int128); an operation
+// contributes only four small wrappers (dom / ref / impl / sit).
 #pragma once
 #include "vf.hpp"
 
@@ -25,6 +29,7 @@
 namespace c14 {
 using i128 = __int128;
 using u128 = unsigned __int128;
+using ull  = unsigned long long;
 
 // ------------------------------------------------------------------ type names / limits
 template <class T>
@@ -74,37 +79,47 @@ inline std::string s128(i128 v)
     std::reverse(s.begin(), s.end());
     return s;
 }
-inline std::string show(bool b) { return b ? "true" : "false"; }
-template <class T>
-    requires(std::is_integral_v<T> && !std::is_same_v<T, bool>)
-std::string show(T v)
-{
-    using U = std::make_unsigned_t<T>;
-    char b[40];
-    std::snprintf(b, sizeof b, " (0x%0*llx)", int(sizeof(T) * 2), (unsigned long long)U(v));
-    return s128(i128(v)) + b;
-}
-inline std::string show(i128 v) { return s128(v); }
 
-// ------------------------------------------------------------------ value sets (sorted, unique)
-template <class T>
-std::vector<T> finish(std::vector<T> v)
+// the value of the w-bit pattern `bits` read as a signed / unsigned integer
+inline i128 from_bits(ull bits, int w, bool sgn)
+{
+    if (w < 64) { bits &= (1ull << w) - 1; }
+    if (sgn && ((bits >> (w - 1)) & 1)) { return i128(bits) - (i128(1) << w); }
+    return i128(bits);
+}
+inline std::string show_arg(i128 v, int w)
+{
+    char b[40];
+    ull u = ull(v);
+    if (w < 64) { u &= (1ull << w) - 1; }
+    std::snprintf(b, sizeof b, " (0x%0*llx)", w / 4, u);
+    return s128(v) + b;
+}
+
+// ------------------------------------------------------------------ value sets (sorted, unique, as i128)
+using Set = std::vector<i128>;
+inline Set finish(Set v)
 {
     std::sort(v.begin(), v.end());
     v.erase(std::unique(v.begin(), v.end()), v.end());
     return v;
 }
+template <class T>
+std::vector<T> finish_t(std::vector<T> v)
+{
+    std::sort(v.begin(), v.end());
+    v.erase(std::unique(v.begin(), v.end()), v.end());
+    return v;
+}
+inline bool in_set(Set const& v, i128 x) { return std::binary_search(v.begin(), v.end(), x); }
 
 // every single bit, every low mask, +-1 neighbours, their negations/complements, limits, small values,
-// byte patterns, powers of ten
-template <class T>
-std::vector<T> make_structured()
+// byte patterns, powers of ten, a few composites/primes
+inline Set make_structured(int w, bool sgn)
 {
-    using U   = std::make_unsigned_t<T>;
-    using ull = unsigned long long;
-    std::vector<T> v;
-    auto add = [&](ull x) { v.push_back(T(U(x))); };
-    for (int k = 0; k < W<T>; ++k) {
+    Set v;
+    auto add = [&](ull x) { v.push_back(from_bits(x, w, sgn)); };
+    for (int k = 0; k < w; ++k) {
         ull p = 1ull << k;
         add(p);
         add(p - 1);
@@ -126,7 +141,7 @@ std::vector<T> make_structured()
         0xFFFF0000FFFF0000ull, 0x00000000FFFFFFFFull, 0xFFFFFFFF00000000ull};
     for (ull p : pats) {
         add(p);
-        add(p >> (64 - W<T>));
+        add(p >> (64 - w));
     }
     ull t = 1;
     for (int i = 0; i < 20; ++i) {
@@ -144,28 +159,24 @@ std::vector<T> make_structured()
     }
     return finish(std::move(v));
 }
-
 // the small boundary grid used against a full 16-bit sweep of the other argument
-template <class T>
-std::vector<T> make_grid()
+inline Set make_grid(int w, bool sgn)
 {
-    using U   = std::make_unsigned_t<T>;
-    using ull = unsigned long long;
-    std::vector<T> v;
-    auto add = [&](ull x) { v.push_back(T(U(x))); };
+    Set v;
+    auto add = [&](ull x) { v.push_back(from_bits(x, w, sgn)); };
     for (ull s = 0; s <= 3; ++s) {
         add(s);
         add(0 - s);
     }
     for (int k : {7, 8, 15, 16, 31, 32, 63}) {
-        if (k >= W<T>) { continue; }
+        if (k >= w) { continue; }
         ull p = 1ull << k;
         for (ull d : {p - 1, p, p + 1}) {
             add(d);
             add(0 - d);
         }
     }
-    ull top = 1ull << (W<T> - 1); // signed min / unsigned middle
+    ull top = 1ull << (w - 1); // signed min / unsigned middle
     for (ull d = 0; d <= 2; ++d) {
         add(top + d);
         add(top - 1 - d);
@@ -180,173 +191,134 @@ std::vector<T> make_grid()
     add(12);
     return finish(std::move(v));
 }
-
-template <class T>
-std::vector<T> make_all()
+inline Set make_all(int w, bool sgn)
 {
-    std::vector<T> v;
-    if constexpr (W<T> <= 16) {
-        v.reserve(std::size_t(1) << W<T>);
-        for (long i = long(lo<T>); i <= long(hi<T>); ++i) { v.push_back(T(i)); }
+    Set v;
+    if (w <= 16) {
+        for (ull i = 0; i < (1ull << w); ++i) { v.push_back(from_bits(i, w, sgn)); }
     }
-    return v;
+    return finish(std::move(v));
 }
-
-template <class T>
-std::vector<T> const& structured()
+struct Sets {
+    Set structured, grid, all;
+    Set const& dense(int w) const { return w == 8 ? all : structured; }
+    Set const& unary(int w) const { return w <= 16 ? all : structured; }
+};
+inline Sets const& sets_of(int w, bool sgn)
 {
-    static std::vector<T> const v = make_structured<T>();
-    return v;
-}
-template <class T>
-std::vector<T> const& grid()
-{
-    static std::vector<T> const v = make_grid<T>();
-    return v;
-}
-template <class T>
-std::vector<T> const& allvals()
-{
-    static std::vector<T> const v = make_all<T>();
-    return v;
+    static Sets const* cache[2][65] = {};
+    Sets const*& p = cache[sgn ? 1 : 0][w];
+    if (!p) { p = new Sets{make_structured(w, sgn), make_grid(w, sgn), make_all(w, sgn)}; }
+    return *p;
 }
 template <class T>
-std::vector<T> const& dense()
+Sets const& sets()
 {
-    if constexpr (W<T> == 8) {
-        return allvals<T>();
-    } else {
-        return structured<T>();
-    }
-}
-// unary enumerated domain: everything up to 16 bits, structured beyond
-template <class T>
-std::vector<T> const& unary_set()
-{
-    if constexpr (W<T> <= 16) {
-        return allvals<T>();
-    } else {
-        return structured<T>();
-    }
+    return sets_of(W<T>, std::is_signed_v<T>);
 }
 template <class T>
-bool in_set(std::vector<T> const& v, T x)
+Set to_set(std::vector<T> const& v)
 {
-    return std::binary_search(v.begin(), v.end(), x);
-}
-
-enum VK : unsigned char { VK_ALL, VK_DENSE, VK_GRID, VK_UNARY, VK_CUSTOM };
-template <class T>
-std::vector<T> const& vals(VK k)
-{
-    switch (k) {
-    case VK_ALL: return allvals<T>();
-    case VK_DENSE: return dense<T>();
-    case VK_GRID: return grid<T>();
-    default: return unary_set<T>();
-    }
+    Set s;
+    for (T x : v) { s.push_back(i128(x)); }
+    return finish(std::move(s));
 }
 
 // ------------------------------------------------------------------ random values
-template <class T>
-T rnd(vf::Rng& r)
+inline i128 rnd_bits(vf::Rng& r, int w, bool sgn)
 {
-    using U             = std::make_unsigned_t<T>;
-    using ull           = unsigned long long;
-    constexpr int w     = W<T>;
     std::uint64_t m     = r.next();
     unsigned const mode = unsigned(m & 15);
     m >>= 4;
     auto delta = [&]() -> ull { return ull(0) + (m >> 8) % 5 - 2; }; // -2..2 (wraps)
+    ull v      = 0;
     switch (mode) {
     case 0:
     case 1:
     case 2:
-    case 3: return T(U(r.next())); // uniform bit pattern
+    case 3: v = r.next(); break; // uniform bit pattern
     case 4:
     case 5:
     case 6: { // log-uniform magnitude, random sign
         int len = int((m & 0xff) % unsigned(w + 1));
-        ull v   = len == 0 ? 0 : (r.next() >> (64 - len));
+        v       = len == 0 ? 0 : (r.next() >> (64 - len));
         if ((m >> 20) & 1) { v = 0 - v; }
-        return T(U(v));
+        break;
     }
-    case 7: { // small
-        ull v = (m & 0xff) % 34;
+    case 7: // small
+        v = (m & 0xff) % 34;
         if ((m >> 20) & 1) { v = 0 - v; }
-        return T(U(v));
-    }
-    case 8: { // near the limits
+        break;
+    case 8: { // near the limits of the signed and the unsigned reading
         ull d = (m & 0xff) % 4;
         switch ((m >> 20) & 3) {
-        case 0: return T(U(ull(hi<T>) - d));
-        case 1: return T(U(ull(lo<T>) + d));
-        case 2: return T(U((1ull << (w - 1)) - 1 - d));
-        default: return T(U((1ull << (w - 1)) + d));
+        case 0: v = 0 - 1 - d; break;
+        case 1: v = d; break;
+        case 2: v = (1ull << (w - 1)) - 1 - d; break;
+        default: v = (1ull << (w - 1)) + d; break;
         }
+        break;
     }
     case 9:
-    case 10: { // single bit +- delta, maybe negated
-        ull v = (1ull << ((m & 0xff) % unsigned(w))) + delta();
+    case 10: // single bit +- delta, maybe negated
+        v = (1ull << ((m & 0xff) % unsigned(w))) + delta();
         if ((m >> 20) & 1) { v = 0 - v; }
-        return T(U(v));
-    }
-    case 11: { // low mask +- delta, maybe complemented
-        ull v = ((1ull << ((m & 0xff) % unsigned(w))) - 1) + delta();
+        break;
+    case 11: // low mask +- delta, maybe complemented
+        v = ((1ull << ((m & 0xff) % unsigned(w))) - 1) + delta();
         if ((m >> 20) & 1) { v = ~v; }
-        return T(U(v));
-    }
-    case 12: { // two random bits
-        ull v = (1ull << ((m & 0xff) % unsigned(w))) | (1ull << (((m >> 8) & 0xff) % unsigned(w)));
-        return T(U(v));
-    }
+        break;
+    case 12: // two random bits
+        v = (1ull << ((m & 0xff) % unsigned(w))) | (1ull << (((m >> 8) & 0xff) % unsigned(w)));
+        break;
     case 13: { // a run of ones at a random position
         int len = 1 + int((m & 0xff) % unsigned(w));
         int pos = int(((m >> 8) & 0xff) % unsigned(w));
-        ull v   = (len >= 64 ? ~0ull : ((1ull << len) - 1)) << pos;
-        return T(U(v));
+        v       = (len >= 64 ? ~0ull : ((1ull << len) - 1)) << pos;
+        break;
     }
     default: { // a structured value
-        auto const& s = structured<T>();
+        Set const& s = sets_of(w, sgn).structured;
         return s[r.below(s.size())];
     }
     }
+    return from_bits(v, w, sgn);
 }
-
-// related pairs: independent, equal, neighbours, negation, common factor
-template <class A, class B>
-void rnd_pair(vf::Rng& r, A& x, B& y)
+template <class T>
+T rnd(vf::Rng& r)
 {
-    using UA  = std::make_unsigned_t<A>;
-    using UB  = std::make_unsigned_t<B>;
-    using ull = unsigned long long;
-    x         = rnd<A>(r);
+    return T(rnd_bits(r, W<T>, std::is_signed_v<T>));
+}
+// related pairs: independent, equal, neighbours, negation, common factor
+inline void rnd_pair_bits(vf::Rng& r, int wa, bool sa, int wb, bool sb, i128& x, i128& y)
+{
+    x               = rnd_bits(r, wa, sa);
     std::uint64_t m = r.next();
     switch (m & 15) {
-    case 0: y = B(UB(ull(UA(x)))); break;
-    case 1: y = B(i128(x)); break; // value-preserving when representable
-    case 2: y = B(UB(ull(i128(x)) + (m >> 8) % 5 - 2)); break;
-    case 3: y = B(UB(0 - ull(i128(x)))); break;
+    case 0: // same bit pattern
+    case 1: y = from_bits(ull(x), wb, sb); break;
+    case 2: y = from_bits(ull(x) + (m >> 8) % 5 - 2, wb, sb); break;
+    case 3: y = from_bits(0 - ull(x), wb, sb); break;
     case 4:
     case 5: { // common factor g, small cofactors
-        int gl   = int((m >> 8) % unsigned(std::min(W<A>, W<B>)));
-        ull g    = gl == 0 ? 1 : (r.next() >> (64 - gl)) | 1;
-        ull a    = 1 + (m >> 20) % 30;
-        ull b    = 1 + (m >> 30) % 30;
+        int gl = int((m >> 8) % unsigned(std::min(wa, wb)));
+        ull g  = gl == 0 ? 1 : (r.next() >> (64 - gl)) | 1;
+        ull a  = 1 + (m >> 20) % 30;
+        ull b  = 1 + (m >> 30) % 30;
         ull xv = g * a, yv = g * b;
         if ((m >> 40) & 1) { xv = 0 - xv; }
         if ((m >> 41) & 1) { yv = 0 - yv; }
-        x = A(UA(xv));
-        y = B(UB(yv));
+        x = from_bits(xv, wa, sa);
+        y = from_bits(yv, wb, sb);
         break;
     }
     case 6: { // y a small divisor-like value
         ull v = 1 + (m >> 8) % 16;
         if ((m >> 40) & 1) { v = 0 - v; }
-        y = B(UB(v));
+        y = from_bits(v, wb, sb);
         break;
     }
-    default: y = rnd<B>(r); break;
+    default: y = rnd_bits(r, wb, sb); break;
     }
 }
 
@@ -354,11 +326,33 @@ void rnd_pair(vf::Rng& r, A& x, B& y)
 struct QR {
     i128 q, r;
 };
-inline bool same(i128 a, i128 b) { return a == b; }
-inline bool same(bool a, bool b) { return a == b; }
-inline bool same(QR a, QR b) { return a.q == b.q && a.r == b.r; }
-inline std::string show(QR v) { return "{quot=" + s128(v.q) + ",rem=" + s128(v.r) + "}"; }
-
+struct Res {
+    i128 a, b;
+};
+enum RK : unsigned char { RK_INT, RK_BOOL, RK_QR };
+inline Res pack(i128 v) { return Res{v, 0}; }
+inline Res pack(bool v) { return Res{v ? 1 : 0, 0}; }
+inline Res pack(QR v) { return Res{v.q, v.r}; }
+template <class R>
+constexpr RK rk_of()
+{
+    if constexpr (std::is_same_v<R, bool>) {
+        return RK_BOOL;
+    } else if constexpr (std::is_same_v<R, QR>) {
+        return RK_QR;
+    } else {
+        static_assert(std::is_same_v<R, i128>);
+        return RK_INT;
+    }
+}
+inline std::string show_res(RK k, Res v)
+{
+    switch (k) {
+    case RK_BOOL: return v.a ? "true" : "false";
+    case RK_QR: return "{quot=" + s128(v.a) + ",rem=" + s128(v.b) + "}";
+    default: return s128(v.a);
+    }
+}
 inline std::string sym_int(char const* name, i128 o, i128 e)
 {
     char b[96];
@@ -374,28 +368,72 @@ inline std::string sym_int(char const* name, i128 o, i128 e)
     }
     return b;
 }
-inline std::string sym(i128 o, i128 e) { return sym_int("ret", o, e); }
-inline std::string sym(bool o, bool) { return o ? "ret:true-for-false" : "ret:false-for-true"; }
-inline std::string sym(QR o, QR e) { return o.q != e.q ? sym_int("quot", o.q, e.q) : sym_int("rem", o.r, e.r); }
+inline std::string sym_res(RK k, Res o, Res e)
+{
+    switch (k) {
+    case RK_BOOL: return o.a ? "ret:true-for-false" : "ret:false-for-true";
+    case RK_QR: return o.a != e.a ? sym_int("quot", o.a, e.a) : sym_int("rem", o.b, e.b);
+    default: return sym_int("ret", o.a, e.a);
+    }
+}
 
 // ------------------------------------------------------------------ tasks
 constexpr std::uint32_t kRandBlock = 16384;
 constexpr std::uint32_t kMaxBlock  = 1u << 17;
 
+enum VK : unsigned char { VK_ALL, VK_DENSE, VK_GRID, VK_UNARY, VK_CUSTOM };
 struct BlockDesc {
     VK xk, yk;
     std::uint32_t ylo, yhi; // range of indices into the y set (unary: into the x set)
     unsigned char overlap;  // 0: nothing enumerated elsewhere; 1: all16 x grid; 2: grid x all16
     char const* cls;
 };
-struct Task;
-using RunFn = void (*)(Task const&, int block, vf::Case&);
 struct Task {
     std::string label; // evidence label == subject: "popcount<uint16_t>"
     std::string op;    // "popcount(x)"
     std::vector<BlockDesc> blocks;
-    RunFn run       = nullptr;
     bool has_random = true;
+    bool unary      = false;
+    RK rk           = RK_INT;
+    int wx = 0, wy = 0;
+    bool (*dom)(i128, i128)         = nullptr;
+    Res (*ref)(i128, i128)          = nullptr;
+    Res (*impl)(i128, i128)         = nullptr;
+    char const* (*sit)(i128, i128)  = nullptr;
+    void (*rnd)(vf::Rng&, i128&, i128&) = nullptr;
+    Sets const* sx = nullptr;
+    Sets const* sy = nullptr;
+    Set const* custom_x = nullptr; // unary: replaces the unary set
+    Set const* custom_y = nullptr; // binary: replaces the standard block structure
+
+    Set const& xset(VK k) const
+    {
+        switch (k) {
+        case VK_ALL: return sx->all;
+        case VK_DENSE: return sx->dense(wx);
+        case VK_GRID: return sx->grid;
+        default: return custom_x ? *custom_x : sx->unary(wx);
+        }
+    }
+    Set const& yset(VK k) const
+    {
+        switch (k) {
+        case VK_ALL: return sy->all;
+        case VK_DENSE: return sy->dense(wy);
+        case VK_GRID: return sy->grid;
+        case VK_CUSTOM: return *custom_y;
+        default: return sy->unary(wy);
+        }
+    }
+    bool enumerated(i128 x, i128 y) const
+    {
+        if (unary) { return in_set(xset(VK_UNARY), x); }
+        if (custom_y) { return in_set(xset(VK_UNARY), x) && in_set(*custom_y, y); }
+        if (in_set(sx->dense(wx), x) && in_set(sy->dense(wy), y)) { return true; }
+        if (wx == 16 && in_set(sy->grid, y)) { return true; }
+        if (wy == 16 && in_set(sx->grid, x)) { return true; }
+        return false;
+    }
 };
 inline std::vector<Task>& tasks()
 {
@@ -416,11 +454,34 @@ struct Ctx {
         crumb();
     }
     void crumb() const { vf::crumb(t.label.c_str(), t.op.c_str(), cls, "block %d", block); }
-    void report(char const* sit, std::string const& symptom, std::string const& args, std::string const& obs, std::string const& exp) const
+    std::string args(i128 x, i128 y) const
     {
-        vf::crumb(t.label.c_str(), t.op.c_str(), sit, "%s", args.c_str());
-        vf::diverge(symptom.c_str(), obs, exp);
+        std::string a = "x=" + show_arg(x, t.wx);
+        if (!t.unary) { a += " y=" + show_arg(y, t.wy); }
+        return a;
+    }
+    __attribute__((noinline, cold)) void report(i128 x, i128 y, Res o, Res e) const
+    {
+        vf::crumb(t.label.c_str(), t.op.c_str(), t.sit(x, y), "%s", args(x, y).c_str());
+        vf::diverge(sym_res(t.rk, o, e).c_str(), show_res(t.rk, o), show_res(t.rk, e));
         crumb();
+    }
+    __attribute__((noinline, cold)) void tracecall(i128 x, i128 y) const
+    {
+        std::fprintf(stderr, "    %s %s\n", t.label.c_str(), args(x, y).c_str());
+    }
+    __attribute__((noinline, cold)) void sample(BlockDesc const& b, i128 x, i128 y, std::size_t nx) const
+    {
+        vf::sample(t.label.c_str(), "%s %s -> %s  [%s block: %zu x %u argument tuples]", t.op.c_str(), args(x, y).c_str(),
+            show_res(t.rk, t.ref(x, y)).c_str(), b.cls, t.unary ? std::size_t(1) : nx, b.yhi - b.ylo);
+    }
+    inline void eval(i128 x, i128 y)
+    {
+        if (trace) { tracecall(x, y); }
+        Res e = t.ref(x, y);
+        Res o = t.impl(x, y);
+        if (o.a != e.a || o.b != e.b) { report(x, y, o, e); }
+        ++evals;
     }
     void finish_enum()
     {
@@ -428,11 +489,74 @@ struct Ctx {
         vf::cover_bulk(t.label.c_str(), evals, vf::mix(lh, std::uint64_t(block) + 0x1000), distinct);
     }
     void finish_random() { vf::cover_bulk(t.label.c_str(), evals, 0, 0); }
-    void distinct_random(std::uint64_t h)
+    void distinct_random(i128 x, i128 y)
     {
-        if (vf::g().sh) { vf::dset_insert(vf::mix(h, lh)); }
+        if (vf::g().sh) { vf::dset_insert(vf::mix(vf::mix(std::uint64_t(x), std::uint64_t(y) + 0x9e37), lh)); }
     }
 };
+
+inline void run_task(Task const& t, int block, vf::Case& cs)
+{
+    if (block < 0) {
+        Ctx c(t, "random", block);
+        for (std::uint32_t i = 0; i < kRandBlock; ++i) {
+            i128 x = 0, y = 0;
+            t.rnd(cs.rng, x, y);
+            if (!t.dom(x, y)) { continue; }
+            c.eval(x, y);
+            if (!t.enumerated(x, y)) { c.distinct_random(x, y); }
+        }
+        c.finish_random();
+        return;
+    }
+    BlockDesc const& b = t.blocks[std::size_t(block)];
+    Ctx c(t, b.cls, block);
+    bool sampled = !vf::want_sample(t.label.c_str());
+    if (t.unary) {
+        Set const& xs = t.xset(VK_UNARY);
+        for (std::uint32_t i = b.ylo; i < b.yhi; ++i) {
+            i128 x = xs[i];
+            if (!t.dom(x, 0)) { continue; }
+            c.eval(x, 0);
+            if (!sampled && (x > 1 || i + 1 == b.yhi)) {
+                c.sample(b, x, 0, 1);
+                sampled = true;
+            }
+        }
+        c.distinct = c.evals;
+        c.finish_enum();
+        return;
+    }
+    Set const& xs = t.xset(b.xk);
+    Set const& ys = t.yset(b.yk);
+    for (std::uint32_t j = b.ylo; j < b.yhi; ++j) {
+        i128 y       = ys[j];
+        bool y_dense = false, y_grid = false;
+        if (b.overlap) {
+            y_dense = in_set(t.sy->dense(t.wy), y);
+            y_grid  = in_set(t.sy->grid, y);
+        }
+        for (i128 x : xs) {
+            if (!t.dom(x, y)) { continue; }
+            c.eval(x, y);
+            if (b.overlap == 0) {
+                ++c.distinct;
+            } else {
+                // do not count tuples that another enumerated block already has
+                bool dup = (y_dense && in_set(t.sx->dense(t.wx), x)) || (b.overlap == 2 && t.wx == 16 && y_grid);
+                c.distinct += dup ? 0 : 1;
+            }
+        }
+        if (!sampled && c.evals > 0) {
+            i128 x = xs[xs.size() / 3];
+            if (t.dom(x, y)) {
+                c.sample(b, x, y, xs.size());
+                sampled = true;
+            }
+        }
+    }
+    c.finish_enum();
+}
 
 inline void add_unary_blocks(std::vector<BlockDesc>& out, std::size_t count, char const* cls)
 {
@@ -445,139 +569,58 @@ inline void add_chunks(std::vector<BlockDesc>& out, VK xk, VK yk, std::size_t nx
     std::uint32_t per = std::uint32_t(std::max<std::size_t>(1, kMaxBlock / nx));
     for (std::uint32_t s = 0; s < ny; s += per) { out.push_back({xk, yk, s, std::uint32_t(std::min<std::size_t>(ny, s + per)), ov, cls}); }
 }
-template <class A, class B>
-void add_binary_blocks(std::vector<BlockDesc>& out)
-{
-    add_chunks(out, VK_DENSE, VK_DENSE, dense<A>().size(), dense<B>().size(), 0,
-        (W<A> == 8 && W<B> == 8) ? "all-pairs-8bit" : "structured-pairs");
-    if constexpr (W<A> == 16) { add_chunks(out, VK_ALL, VK_GRID, allvals<A>().size(), grid<B>().size(), 1, "all16-x-grid"); }
-    if constexpr (W<B> == 16) { add_chunks(out, VK_GRID, VK_ALL, grid<A>().size(), allvals<B>().size(), 2, "grid-x-all16"); }
-}
-template <class A, class B>
-bool binary_enumerated(A x, B y)
-{
-    if (in_set(dense<A>(), x) && in_set(dense<B>(), y)) { return true; }
-    if constexpr (W<A> == 16) {
-        if (in_set(grid<B>(), y)) { return true; }
-    }
-    if constexpr (W<B> == 16) {
-        if (in_set(grid<A>(), x)) { return true; }
-    }
-    return false;
-}
 
 template <class Op>
 concept HasYset = requires { Op::yset(); };
+template <class Op>
+concept HasXset = requires { Op::xset(); };
 template <class Op>
 concept HasRnd = requires(vf::Rng& r, typename Op::A& a, typename Op::B& b) { Op::rnd(r, a, b); };
 template <class Op>
 concept HasRnd1 = requires(vf::Rng& r, typename Op::A& a) { Op::rnd(r, a); };
 
+// ---- per-operation wrappers (the only code instantiated per operation)
 template <class Op>
-concept HasXset = requires { Op::xset(); };
-template <class Op>
-std::vector<typename Op::A> const& xvals()
-{
-    if constexpr (HasXset<Op>) {
-        return Op::xset();
-    } else {
-        return unary_set<typename Op::A>();
-    }
-}
-
-// ---- out-of-line reporting (keeps the per-instantiation code small)
-struct Arg {
-    i128 v;
-    int width;
-};
-template <class T>
-Arg arg(T x)
-{
-    return Arg{i128(x), W<T>};
-}
-inline std::string show(Arg a)
-{
-    char b[40];
-    unsigned long long u = (unsigned long long)(a.v);
-    if (a.width < 64) { u &= (1ull << a.width) - 1; }
-    std::snprintf(b, sizeof b, " (0x%0*llx)", a.width / 4, u);
-    return s128(a.v) + b;
-}
-template <class R>
-__attribute__((noinline, cold)) void report1(Ctx const& c, char const* sit, Arg x, R o, R e)
-{
-    c.report(sit, sym(o, e), "x=" + show(x), show(o), show(e));
-}
-template <class R>
-__attribute__((noinline, cold)) void report2(Ctx const& c, char const* sit, Arg x, Arg y, R o, R e)
-{
-    c.report(sit, sym(o, e), "x=" + show(x) + " y=" + show(y), show(o), show(e));
-}
-__attribute__((noinline, cold)) inline void trace_args(Ctx const& c, Arg x, Arg const* y)
-{
-    std::fprintf(stderr, "    %s x=%s%s%s\n", c.t.label.c_str(), show(x).c_str(), y ? " y=" : "", y ? show(*y).c_str() : "");
-}
-template <class R>
-__attribute__((noinline, cold)) void sample1(Task const& t, BlockDesc const& b, Arg x, R r)
-{
-    vf::sample(t.label.c_str(), "%s x=%s -> %s  [%s block of %u values]", t.op.c_str(), show(x).c_str(), show(r).c_str(), b.cls, b.yhi - b.ylo);
-}
-template <class R>
-__attribute__((noinline, cold)) void sample2(Task const& t, BlockDesc const& b, Arg x, Arg y, R r, std::size_t nx)
-{
-    vf::sample(t.label.c_str(), "%s x=%s y=%s -> %s  [%s block: %zu x %u tuples]", t.op.c_str(), show(x).c_str(), show(y).c_str(), show(r).c_str(),
-        b.cls, nx, b.yhi - b.ylo);
-}
-
-// ---- unary
-template <class Op>
-inline void eval1(Ctx& c, typename Op::A x)
-{
-    using R = typename Op::R;
-    if (c.trace) { trace_args(c, arg(x), nullptr); }
-    R e = Op::ref(x);
-    R o = Op::impl(x);
-    if (!same(o, e)) { report1<R>(c, Op::sit(x), arg(x), o, e); }
-}
-template <class Op>
-void run_unary(Task const& t, int block, vf::Case& cs)
-{
+struct U1 {
     using A = typename Op::A;
-    if (block >= 0) {
-        BlockDesc const& b = t.blocks[std::size_t(block)];
-        Ctx c(t, b.cls, block);
-        auto const& xs = xvals<Op>();
-        bool sampled   = !vf::want_sample(t.label.c_str());
-        for (std::uint32_t i = b.ylo; i < b.yhi; ++i) {
-            A x = xs[i];
-            if (!Op::dom(x)) { continue; }
-            eval1<Op>(c, x);
-            ++c.evals;
-            if (!sampled && (x > A(1) || i + 1 == b.yhi)) {
-                sample1<typename Op::R>(t, b, arg(x), Op::ref(x));
-                sampled = true;
-            }
+    static bool dom(i128 x, i128) { return Op::dom(A(x)); }
+    static Res ref(i128 x, i128) { return pack(typename Op::R(Op::ref(A(x)))); }
+    static Res impl(i128 x, i128) { return pack(typename Op::R(Op::impl(A(x)))); }
+    static char const* sit(i128 x, i128) { return Op::sit(A(x)); }
+    static void rnd(vf::Rng& r, i128& x, i128& y)
+    {
+        y = 0;
+        if constexpr (HasRnd1<Op>) {
+            A a{};
+            Op::rnd(r, a);
+            x = i128(a);
+        } else {
+            x = rnd_bits(r, W<A>, std::is_signed_v<A>);
         }
-        c.distinct = c.evals;
-        c.finish_enum();
-    } else {
-        Ctx c(t, "random", block);
-        auto const& xs = xvals<Op>();
-        for (std::uint32_t i = 0; i < kRandBlock; ++i) {
-            A x;
-            if constexpr (HasRnd1<Op>) {
-                Op::rnd(cs.rng, x);
-            } else {
-                x = rnd<A>(cs.rng);
-            }
-            if (!Op::dom(x)) { continue; }
-            eval1<Op>(c, x);
-            ++c.evals;
-            if (!in_set(xs, x)) { c.distinct_random(vf::mix(std::uint64_t(x), 1)); }
-        }
-        c.finish_random();
     }
-}
+};
+template <class Op>
+struct U2 {
+    using A = typename Op::A;
+    using B = typename Op::B;
+    static bool dom(i128 x, i128 y) { return Op::dom(A(x), B(y)); }
+    static Res ref(i128 x, i128 y) { return pack(typename Op::R(Op::ref(A(x), B(y)))); }
+    static Res impl(i128 x, i128 y) { return pack(typename Op::R(Op::impl(A(x), B(y)))); }
+    static char const* sit(i128 x, i128 y) { return Op::sit(A(x), B(y)); }
+    static void rnd(vf::Rng& r, i128& x, i128& y)
+    {
+        if constexpr (HasRnd<Op>) {
+            A a{};
+            B b{};
+            Op::rnd(r, a, b);
+            x = i128(a);
+            y = i128(b);
+        } else {
+            rnd_pair_bits(r, W<A>, std::is_signed_v<A>, W<B>, std::is_signed_v<B>, x, y);
+        }
+    }
+};
+
 template <class Op>
 void reg_unary(bool random = true)
 {
@@ -585,95 +628,23 @@ void reg_unary(bool random = true)
     Task t;
     t.label = Op::subject();
     t.op    = Op::name;
-    add_unary_blocks(t.blocks, xvals<Op>().size(), HasXset<Op> ? "custom-set" : W<A> <= 16 ? "all-values" : "structured");
-    t.run        = &run_unary<Op>;
+    t.unary = true;
+    t.rk    = rk_of<typename Op::R>();
+    t.wx    = W<A>;
+    t.sx    = &sets<A>();
+    t.sy    = t.sx;
+    t.dom   = &U1<Op>::dom;
+    t.ref   = &U1<Op>::ref;
+    t.impl  = &U1<Op>::impl;
+    t.sit   = &U1<Op>::sit;
+    t.rnd   = &U1<Op>::rnd;
+    if constexpr (HasXset<Op>) {
+        static Set const xs = to_set(Op::xset());
+        t.custom_x          = &xs;
+    }
+    add_unary_blocks(t.blocks, t.xset(VK_UNARY).size(), HasXset<Op> ? "custom-set" : W<A> <= 16 ? "all-values" : "structured");
     t.has_random = random && W<A> > 16;
     tasks().push_back(std::move(t));
-}
-
-// ---- binary
-template <class Op>
-inline void eval2(Ctx& c, typename Op::A x, typename Op::B y)
-{
-    using R = typename Op::R;
-    if (c.trace) {
-        Arg ya = arg(y);
-        trace_args(c, arg(x), &ya);
-    }
-    R e = Op::ref(x, y);
-    R o = Op::impl(x, y);
-    if (!same(o, e)) { report2<R>(c, Op::sit(x, y), arg(x), arg(y), o, e); }
-}
-template <class Op>
-std::vector<typename Op::B> const& yvals(VK k)
-{
-    if constexpr (HasYset<Op>) {
-        if (k == VK_CUSTOM) { return Op::yset(); }
-    }
-    return vals<typename Op::B>(k);
-}
-template <class Op>
-void run_binary(Task const& t, int block, vf::Case& cs)
-{
-    using A = typename Op::A;
-    using B = typename Op::B;
-    if (block >= 0) {
-        BlockDesc const& b = t.blocks[std::size_t(block)];
-        Ctx c(t, b.cls, block);
-        auto const& xs = vals<A>(b.xk);
-        auto const& ys = yvals<Op>(b.yk);
-        bool sampled   = !vf::want_sample(t.label.c_str());
-        for (std::uint32_t j = b.ylo; j < b.yhi; ++j) {
-            B y          = ys[j];
-            bool y_dense = false, y_grid = false;
-            if (b.overlap) {
-                y_dense = in_set(dense<B>(), y);
-                y_grid  = in_set(grid<B>(), y);
-            }
-            for (A x : xs) {
-                if (!Op::dom(x, y)) { continue; }
-                eval2<Op>(c, x, y);
-                ++c.evals;
-                if (b.overlap == 0) {
-                    ++c.distinct;
-                } else {
-                    // do not count tuples that another enumerated block already has
-                    bool dup = (y_dense && in_set(dense<A>(), x)) || (b.overlap == 2 && W<A> == 16 && y_grid);
-                    c.distinct += dup ? 0 : 1;
-                }
-            }
-            if (!sampled && c.evals > 0) {
-                A x = xs[xs.size() / 3];
-                if (Op::dom(x, y)) {
-                    sample2<typename Op::R>(t, b, arg(x), arg(y), Op::ref(x, y), xs.size());
-                    sampled = true;
-                }
-            }
-        }
-        c.finish_enum();
-    } else {
-        Ctx c(t, "random", block);
-        for (std::uint32_t i = 0; i < kRandBlock; ++i) {
-            A x;
-            B y;
-            if constexpr (HasRnd<Op>) {
-                Op::rnd(cs.rng, x, y);
-            } else {
-                rnd_pair<A, B>(cs.rng, x, y);
-            }
-            if (!Op::dom(x, y)) { continue; }
-            eval2<Op>(c, x, y);
-            ++c.evals;
-            bool enumerated;
-            if constexpr (HasYset<Op>) {
-                enumerated = in_set(unary_set<A>(), x) && in_set(Op::yset(), y);
-            } else {
-                enumerated = binary_enumerated<A, B>(x, y);
-            }
-            if (!enumerated) { c.distinct_random(vf::mix(std::uint64_t(x), std::uint64_t(y) + 0x9e37)); }
-        }
-        c.finish_random();
-    }
 }
 template <class Op>
 void reg_binary(bool random = true)
@@ -683,15 +654,29 @@ void reg_binary(bool random = true)
     Task t;
     t.label = Op::subject();
     t.op    = Op::name;
+    t.rk    = rk_of<typename Op::R>();
+    t.wx    = W<A>;
+    t.wy    = W<B>;
+    t.sx    = &sets<A>();
+    t.sy    = &sets<B>();
+    t.dom   = &U2<Op>::dom;
+    t.ref   = &U2<Op>::ref;
+    t.impl  = &U2<Op>::impl;
+    t.sit   = &U2<Op>::sit;
+    t.rnd   = &U2<Op>::rnd;
     if constexpr (HasYset<Op>) {
-        add_chunks(t.blocks, VK_UNARY, VK_CUSTOM, unary_set<A>().size(), Op::yset().size(), 0,
+        static Set const ys = to_set(Op::yset());
+        t.custom_y          = &ys;
+        add_chunks(t.blocks, VK_UNARY, VK_CUSTOM, t.xset(VK_UNARY).size(), ys.size(), 0,
             W<A> <= 16 ? "all-values-x-second-arg-set" : "structured-x-second-arg-set");
         t.has_random = random && W<A> > 8;
     } else {
-        add_binary_blocks<A, B>(t.blocks);
+        add_chunks(t.blocks, VK_DENSE, VK_DENSE, t.sx->dense(t.wx).size(), t.sy->dense(t.wy).size(), 0,
+            (W<A> == 8 && W<B> == 8) ? "all-pairs-8bit" : "structured-pairs");
+        if constexpr (W<A> == 16) { add_chunks(t.blocks, VK_ALL, VK_GRID, t.sx->all.size(), t.sy->grid.size(), 1, "all16-x-grid"); }
+        if constexpr (W<B> == 16) { add_chunks(t.blocks, VK_GRID, VK_ALL, t.sx->grid.size(), t.sy->all.size(), 2, "grid-x-all16"); }
         t.has_random = random && !(W<A> == 8 && W<B> == 8);
     }
-    t.run = &run_binary<Op>;
     tasks().push_back(std::move(t));
 }
 
@@ -736,10 +721,10 @@ inline void run_case(vf::Case& c)
     if (c.enumerated) {
         auto it       = std::upper_bound(p.prefix.begin(), p.prefix.end(), c.index);
         std::size_t t = std::size_t(it - p.prefix.begin()) - 1;
-        ts[t].run(ts[t], int(c.index - p.prefix[t]), c);
+        run_task(ts[t], int(c.index - p.prefix[t]), c);
     } else {
         std::size_t t = p.rnd[c.index % p.rnd.size()];
-        ts[t].run(ts[t], -1, c);
+        run_task(ts[t], -1, c);
     }
 }
 } // namespace c14
